@@ -422,26 +422,31 @@ def load(path, extra):
             walk_enums(ch)
     walk_enums(ast)
     for c in ast['inner']:
-        if c['kind'] == 'TypedefDecl':
-            t = c['type']
-            tu['typedefs'][c['name']] = t.get('desugaredQualType', t['qualType'])
-            if tu['typedefs'][c['name']] == c['name']:      # clang reports a typedef'd enum as itself
-                tu['typedefs'][c['name']] = t['qualType']
-            TYPEDEFS[c['name']] = tu['typedefs'][c['name']]
-        if c['kind'] == 'RecordDecl' and 'inner' in c:
-            fields = []
-            for f in c['inner']:
-                if f['kind'] != 'FieldDecl':
-                    continue
-                if f.get('isBitfield'):
-                    continue             # bit-fields are not part of the translated state (an access raises)
-                try:
-                    fields.append((f['name'], ctype(f)))
-                except Unsupported:
-                    pass        # non-scalar field (array, pointer, nested struct): not part of the translated state; any access to it is rejected
-            tu['records'][c.get('name', '')] = fields
-        if c['kind'] == 'FunctionDecl' and any(x['kind'] == 'CompoundStmt' for x in c.get('inner', [])):
-            tu['fns'][c['name']] = c
+      try:
+          if c['kind'] == 'TypedefDecl':
+              t = c['type']
+              tu['typedefs'][c['name']] = t.get('desugaredQualType', t['qualType'])
+              if tu['typedefs'][c['name']] == c['name']:      # clang reports a typedef'd enum as itself
+                  tu['typedefs'][c['name']] = t['qualType']
+              TYPEDEFS[c['name']] = tu['typedefs'][c['name']]
+          if c['kind'] == 'RecordDecl' and 'inner' in c:
+              fields = []
+              for f in c['inner']:
+                  if f['kind'] != 'FieldDecl':
+                      continue
+                  if f.get('isBitfield'):
+                      continue             # bit-fields are not part of the translated state (an access raises)
+                  if 'name' not in f:
+                      continue             # the implicit field of an anonymous struct/union: not part of the translated state (an access raises)
+                  try:
+                      fields.append((f['name'], ctype(f)))
+                  except Unsupported:
+                      pass        # non-scalar field (array, pointer, nested struct): not part of the translated state; any access to it is rejected
+              tu['records'][c.get('name', '')] = fields
+          if c['kind'] == 'FunctionDecl' and any(x['kind'] == 'CompoundStmt' for x in c.get('inner', [])):
+              tu['fns'][c['name']] = c
+      except (KeyError, TypeError, IndexError):
+        continue      # a declaration outside the subset (some header construct): skipped here; a translated function that needs it fails on the lookup
     for k, v in list(tu['typedefs'].items()):
         if v.startswith('struct '):
             tu['records'][k] = tu['records'].get(v[len('struct '):], [])
